@@ -194,11 +194,25 @@ func dominatingFactsD(b *ssa.BasicBlock, depth int) []EdgeFact {
 		// (a helper's "ok" result after inlining, a flag variable): the taken edge tells
 		// which predecessor control came from, and that predecessor's facts hold too.
 		if depth < 4 {
-			if src := phiBoolSource(fact.Cond, fact.Val, d); src != nil {
-				if sif, ok := lastInstr(src).(*ssa.If); ok && len(src.Succs) == 2 && src.Succs[0] != src.Succs[1] {
-					out = append(out, EdgeFact{sif.Cond, src.Succs[0] == d, src})
+			if src, xc, xv := phiBoolSourceX(fact.Cond, fact.Val, d); src != nil {
+				// across a back edge (d is a loop header) the values defined in d were
+				// redefined on re-entry: conditions over them describe the previous instance
+				back := d.Dominates(src)
+				add := func(f EdgeFact) {
+					if back && dependsOnBlock(f.Cond, d, 8) {
+						return
+					}
+					out = append(out, f)
 				}
-				out = append(out, dominatingFactsD(src, depth+1)...)
+				if xc != nil {
+					add(EdgeFact{xc, xv, src})
+				}
+				if sif, ok := lastInstr(src).(*ssa.If); ok && len(src.Succs) == 2 && src.Succs[0] != src.Succs[1] {
+					add(EdgeFact{sif.Cond, src.Succs[0] == d, src})
+				}
+				for _, f := range dominatingFactsD(src, depth+1) {
+					add(f)
+				}
 			}
 		}
 	}
@@ -251,32 +265,104 @@ func onEveryPath(b *ssa.BasicBlock, pred func(EdgeFact) bool) bool {
 	return rec(b)
 }
 
-// phiBoolSource: cond is a phi in block d whose edges are boolean constants,
-// exactly one of which equals val; returns the predecessor that supplies it.
+// instrDominatesT: every execution reaching b has passed a.  Besides plain
+// dominance this follows flags: if a dominating branch, taken towards b, can
+// only have been taken when control entered its block from one predecessor
+// (phiBoolSourceX), it is enough that a dominates the end of that predecessor.
+func instrDominatesT(a, b ssa.Instruction) bool {
+	if instrDominates(a, b) {
+		return true
+	}
+	return blockPassedT(a, b.Block(), 0)
+}
+
+func blockPassedT(a ssa.Instruction, blk *ssa.BasicBlock, depth int) bool {
+	if depth > 4 {
+		return false
+	}
+	for d := blk.Idom(); d != nil; d = d.Idom() {
+		ifi, ok := lastInstr(d).(*ssa.If)
+		if !ok || len(d.Succs) != 2 || d.Succs[0] == d.Succs[1] {
+			continue
+		}
+		t, f := d.Succs[0], d.Succs[1]
+		td, fd := edgeDominates(d, t, blk), edgeDominates(d, f, blk)
+		if td == fd {
+			continue
+		}
+		if src, _, _ := phiBoolSourceX(ifi.Cond, td, d); src != nil {
+			if a.Block() == src || a.Block().Dominates(src) || blockPassedT(a, src, depth+1) {
+				return true
+			}
+		}
+	}
+	return false
+}
+
+// dependsOnBlock: v is computed (through at most depth operand steps) from a
+// value defined in block d.
+func dependsOnBlock(v ssa.Value, d *ssa.BasicBlock, depth int) bool {
+	ins, ok := v.(ssa.Instruction)
+	if !ok {
+		return false
+	}
+	if ins.Block() == d {
+		return true
+	}
+	if depth == 0 {
+		return true // unknown: assume it does
+	}
+	for _, op := range ins.Operands(nil) {
+		if *op != nil && dependsOnBlock(*op, d, depth-1) {
+			return true
+		}
+	}
+	return false
+}
+
+// phiBoolSource: cond is a phi in block d whose value val can only have been
+// supplied by one predecessor; returns that predecessor.
 func phiBoolSource(cond ssa.Value, val bool, d *ssa.BasicBlock) *ssa.BasicBlock {
+	src, _, _ := phiBoolSourceX(cond, val, d)
+	return src
+}
+
+// phiBoolSourceX: either exactly one edge of the phi is the constant val and
+// all others are constants (a flag set on one path), or all constant edges are
+// !val and exactly one edge is a non-constant boolean (e.g. a loop flag
+// `found = (b == start)` initialised to false): control came from that
+// predecessor, and in the second case the edge's value itself equals val
+// (returned as an extra fact).
+func phiBoolSourceX(cond ssa.Value, val bool, d *ssa.BasicBlock) (*ssa.BasicBlock, ssa.Value, bool) {
 	if u, ok := cond.(*ssa.UnOp); ok && u.Op == token.NOT {
 		cond, val = u.X, !val
 	}
 	phi, ok := cond.(*ssa.Phi)
 	if !ok || phi.Block() != d {
-		return nil
+		return nil, nil, false
 	}
-	var src *ssa.BasicBlock
-	n := 0
+	var srcC, srcN *ssa.BasicBlock
+	var nv ssa.Value
+	nEq, nNon := 0, 0
 	for i, e := range phi.Edges {
 		bv, isC := constBool(e)
 		if !isC {
-			return nil
+			nNon++
+			srcN, nv = d.Preds[i], e
+			continue
 		}
 		if bv == val {
-			n++
-			src = d.Preds[i]
+			nEq++
+			srcC = d.Preds[i]
 		}
 	}
-	if n != 1 {
-		return nil
+	switch {
+	case nEq == 1 && nNon == 0:
+		return srcC, nil, false
+	case nEq == 0 && nNon == 1:
+		return srcN, nv, val
 	}
-	return src
+	return nil, nil, false
 }
 
 func lastInstr(b *ssa.BasicBlock) ssa.Instruction {
